@@ -294,9 +294,18 @@ Section Partition.
 
   (* state of the loop in _path_to_cats *)
   Record pstate := { st_cats : list (str * list value);      (* OrderedDict key -> set (insertion order, deduplicated) *)
+                     st_raw : list (str * list str);        (* key -> set of the path texts (repair of the mixed-text defect) *)
                      st_strings : list str;                 (* string_types *)
                      st_seen : list (str * str) }.
-  Definition st0 : pstate := {| st_cats := []; st_strings := []; st_seen := [] |}.
+  Definition st0 : pstate := {| st_cats := []; st_raw := []; st_strings := []; st_seen := [] |}.
+
+  Fixpoint raw_add (k : str) (x : str) (c : list (str * list str)) : list (str * list str) :=
+    match c with
+    | [] => [(k, [x])]
+    | (k', xs) :: t =>
+      if str_eqb k k' then (k', if mem_str x xs then xs else xs ++ [x]) :: t
+      else (k', xs) :: raw_add k x t
+    end.
 
   Fixpoint cats_add (k : str) (v : value) (c : list (str * list value)) : list (str * list value) :=
     match c with
@@ -318,6 +327,7 @@ Section Partition.
       | OErr => OErr
       | Ok tp =>
         Ok {| st_cats := cats_add (fst kv) tp (st_cats st);
+              st_raw := raw_add (fst kv) (snd kv) (st_raw st);
                 st_strings := if is_vstr tp then fst kv :: st_strings st else st_strings st;
                 st_seen := kv :: st_seen st |}
       end
@@ -328,9 +338,17 @@ Section Partition.
      unpack into (key, val) is a ValueError.                                                    *)
   Definition path_hits (hive : bool) (pp : str * list str) : res (list (str * str)) :=
     if hive then res_of_opt (hive_hits (fst pp)) else Ok (drill_hits (snd pp)).
+  (* the return statement: a level holding any text is text as a whole - its labels are the path
+     texts themselves (values met before the first text value had been converted)             *)
+  Definition final_cats (st : pstate) : list (str * list value) :=
+    map (fun kv => (fst kv,
+                    if mem_str (fst kv) (st_strings st)
+                    then map VStr (match alist_get (fst kv) (st_raw st) with Some l => l | None => [] end)
+                    else snd kv)) (st_cats st).
+
   Definition path_to_cats (hive : bool) (pm : list (str * kind)) (pps : list (str * list str))
     : res (list (str * list value)) :=
-    res_map st_cats
+    res_map final_cats
       (fold_left (fun st pp => match st with
                                | Ok _ => match path_hits hive pp with
                                          | Ok hits => fold_left (add_hit pm) hits st
@@ -376,10 +394,12 @@ Section Partition.
     if hive then map (split_on c_eq) (split_on c_slash path)
     else map (fun kv => [fst kv; snd kv]) (drill_hits (removelast (split_on c_slash path))).
 
-  Definition row_value (hive : bool) (pm : list (str * kind)) (cat : str) (path : str) : option value :=
+  (* labels of a text level are the path texts themselves: no conversion then *)
+  Definition row_value (hive : bool) (pm : list (str * kind)) (cat : str) (labels : list value) (path : str) : option value :=
     match filter (fun p => match p with k :: _ => str_eqb k cat | [] => false end) (row_partitions hive path) with
     | p :: _ => match pair_of p with
-                | Some (k, v) => opt_of_res (val_to_num (alist_get k pm) v)
+                | Some (k, v) => if forallb is_vstr labels then Some (VStr v)
+                                 else opt_of_res (val_to_num (alist_get k pm) v)
                 | None => None
                 end
     | [] => None
@@ -388,7 +408,7 @@ Section Partition.
   (* assign[cat][:] = cats[cat].index(val); the frame then shows categories[code] *)
   Definition row_cell (hive : bool) (pm : list (str * kind)) (path : str) (c : str * list value)
     : option (str * value) :=
-    match row_value hive pm (fst c) path with
+    match row_value hive pm (fst c) (snd c) path with
     | Some v => match index_of veqb v (snd c) with
                 | Some i => option_map (pair (fst c)) (nth_error (snd c) i)
                 | None => None
